@@ -71,7 +71,9 @@ func C01(c *core.Ctx) {
 	}
 	seq := &HistSpec{Name: "sequences", Cfg: Config{}, Ops: seqOps, Depth: sd, Dedup: false, Comps: comps,
 		Prefix: []Action{conn("A", "a", true), conn("B", "b", true), sub("A", 11, "a/+", 1), sub("A", 12, "#", 0), sub("B", 21, "a/b", 2),
-			{Kind: "lsub", Client: "L", Filters: []string{"a/#"}, QoSs: []byte{1}}}}
+			// the in-process subscriber shares its filter with a network client and with a second in-process subscriber
+			sub("B", 24, "a/#", 0),
+			{Kind: "lsub", Client: "L", Filters: []string{"a/#"}, QoSs: []byte{1}}, {Kind: "lsub", Client: "L2", Filters: []string{"a/#"}, QoSs: []byte{2}}}}
 	seq.Search(c)
 	if c.HasViolation() || c.Expired() {
 		return
